@@ -74,6 +74,20 @@ chk("C17", "proof",
     "Coq proof over hand model + translated rule table; correspondence by vm_compute on enumerated layer stacks",
     "DESIGN.md section 4 C17")
 
+chk("C14", "proof",
+    "Proved (Coq, closed under the global context) over the hand model Model/Lifecycle.v of the dispatcher (per-callback lists, context maps) and "
+    "of the scan and fix drivers: for every set of enabled plug-ins with distinct ids, every token stream and every list of lines, an enabled "
+    "plug-in sees exactly Start, every token once in order, every line once in order with its number and text, Complete(lines+1), restricted to "
+    "the callbacks it defines; a plug-in that is not enabled sees nothing; several files concatenate; in both phases of every fix pass a fixer of "
+    "the pass's level sees this shape with the fixing context, a collector of a higher level with the collecting context, a plug-in without fix "
+    "support nothing. The model is tied to the code by evaluating it in Coq against the interleaved call log of generated recorder plug-ins "
+    "(ids sorting first/last, levels 0,1,2,3,5, with/without next_line, token-only, disabled, not fix-capable) for 18 documents and 1-3 files.",
+    "Trusted: Coq kernel + vm_compute, recorder generator, in-process CLI driver. Interpretation: a 'pass' is one phase (the token phase of fix "
+    "mode delivers no lines by design) and in the line phase a plug-in is handed the line as left by the plug-ins dispatched before it. "
+    "Modelled rather than verified: which passes run (C09), file contents between passes.",
+    "Coq proof over hand model; correspondence by vm_compute on recorder call logs",
+    "DESIGN.md section 4 C14")
+
 NOT_YET = {}
 
 
